@@ -17,6 +17,15 @@ func init() {
 		CheckC15(rc, qr)
 		finishQ(rc, qr)
 	})
+	// the same with malformed batch answers (entries omitted or repeated):
+	// whatever the server sends, one object is never in two transfers at once
+	Register("C15.shapes", func(rc *RunCtx) {
+		cfg := GenQCfg(rc.Tape, QProfile{TimeFaults: true, ShapeFaults: true, ShapeExclude: map[string]bool{"obj.unknown": true}})
+		cfg.Faults.ObjForeign = 0
+		qr := RunQueue(rc, cfg)
+		CheckC15(rc, qr)
+		finishQ(rc, qr)
+	})
 	Register("C15.single", func(rc *RunCtx) {
 		// one object, no latency, no deferrals: black-box spacing bound
 		cfg := GenQCfg(rc.Tape, QProfile{TimeFaults: true, MaxObjs: 1, MaxAdds: 1})
